@@ -333,6 +333,15 @@ def rule_f(ctx, ix):
         names = [x.id for x in ast.walk(test) if isinstance(x, ast.Name)]
         if '%s.subsets' % s in t and p in names and '.data' in t:
             return True
+        # the same search written as a loop: `for m in self.subsets: if m.data is data: return`
+        if p in names and '.data' in t:
+            from ..util import enclosing, elementwise
+            lp = enclosing(pm_f, test, (ast.For,))
+            while lp is not None:
+                ew = elementwise(lp.iter)
+                if ew is not None and ew.source == '%s.subsets' % s and isinstance(lp.target, ast.Name) and lp.target.id in names:
+                    return True
+                lp = enclosing(pm_f, lp, (ast.For,))
         for c in ast.walk(test):
             if isinstance(c, ast.Call) and isinstance(c.func, ast.Attribute) and unparse(c.func.value) == s and \
                     any(isinstance(a, ast.Name) and a.id == p for a in c.args):
@@ -346,6 +355,7 @@ def rule_f(ctx, ix):
                 if hp and '%s.subsets' % h.self_name in hb and cmps:
                     return True
         return False
+    pm_f = parent_map(f.node)
     guards = [g for g in walk_no_nested(f.node) if isinstance(g, ast.If) and membership_test(g.test)]
     ok = False
     for g in guards:
